@@ -84,10 +84,10 @@ def pick_len(rng, t, claim=False):
     mpl, mm = t.mpl, t.maxmsg
     left = max(0, t.tlen - min(t.off, t.tlen))
     fill = max(0, left - 32)
-    cands = [0, 1, 31, 32, 33, mpl - 1, mpl, mpl + 1, 2 * mpl, 2 * mpl + 1, mm - 1, mm, mm + 1, fill, fill + 1, fill - 31,
+    cands = [0, 1, 31, 32, 33, mpl - 1, mpl, mpl + 1, 2 * mpl, 2 * mpl + 1, mm - 1, mm, mm + 1, fill, fill + 1, fill - 31, left, left - 1,
              rng.randrange(0, mpl + 1), rng.randrange(0, mm + 1), rng.randrange(0, 100), rng.randrange(0, 100)]
     if claim:
-        cands = [0, 1, 31, 32, 33, mpl - 1, mpl, mpl, mpl + 1, fill, fill + 1, rng.randrange(0, mpl + 1), rng.randrange(0, mpl + 1),
+        cands = [0, 1, 31, 32, 33, mpl - 1, mpl, mpl, mpl + 1, fill, fill + 1, left, left - 1, rng.randrange(0, mpl + 1), rng.randrange(0, mpl + 1),
                  rng.randrange(0, 64)]
     v = rng.choice(cands)
     return max(0, min(v, mm + 40))
@@ -185,11 +185,11 @@ def gen_history(rng, pubkind, malformed=False, nops=None, last_terms=False, with
 
 def generate(rng, tier):
     big = tier == 'thorough'
-    n = 5000 if big else 420
+    n = 5000 if big else 300
     cases = []
     # boundary histories first: one refused / accepted offer around the limit on each geometry and hand-over point
     for pubkind in ('s', 'x'):
-        for (tlen, mtu) in GEOMS[:3] + GEOMS[5:6]:
+        for (tlen, mtu) in (GEOMS[1:2] + GEOMS[5:6] if not big else GEOMS[:3] + GEOMS[5:6]):
             for n0 in (0, 4, 2**31 - 1):
                 for off0 in (0, tlen - 64, tlen):
                     p = n0 * tlen + off0
